@@ -273,8 +273,6 @@ class _VersionIndependentUnmarshaller:
 
     def t_long(self, save_ref, bytes_for_s=False):
         n = unpack("<i", self.fp.read(4))[0]
-        if n == 0:
-            return long(0)
         size = abs(n)
         d = long(0)
         for j in range(0, size):
@@ -285,6 +283,10 @@ class _VersionIndependentUnmarshaller:
             d = long(d)
         if n < 0:
             d = long(d * -1)
+
+        if magic_int2tuple(self.magic_int) >= (3, 0):
+            # Python 3 has a single int type; "long" exists in Python 2 only.
+            d = int(d)
 
         return self.r_ref(d, save_ref)
 
